@@ -47,8 +47,8 @@ func init() {
 		NotCovered: "which other state the parallel region shares and whether it is locked (a whole-program shared-write analysis is not claimed yet); equality of diagnostics and compiled code across schedules (symbol ids, ordering), which is a property of interleavings.",
 	}
 	props["C10"] = &PropSpec{
-		Rules:      []string{"cover/rebase"},
-		Decides:    "that growing the value stack (the one place where a sizing parameter changes what the VM does) moves every location holding a stack address by exactly new + (p - old), updates every field derived from the stack length, visits the complete open-upvalue list once and leaves native call frames alone. The set of locations is recomputed by taint on every run, so a new cached pointer or size-derived field becomes an obligation automatically.",
+		Rules:      []string{"cover/rebase", "stack/stale-after-reentry"},
+		Decides:    "that no VM function keeps using a Go-level address into the value stack (argument slice, slot pointer) after a call that can run Elk code or grow the stack, which would touch the abandoned copy whenever the configured size made a reallocation fall in between; that growing the value stack (the one place where a sizing parameter changes what the VM does) moves every location holding a stack address by exactly new + (p - old), updates every field derived from the stack length, visits the complete open-upvalue list once and leaves native call frames alone. The set of locations is recomputed by taint on every run, so a new cached pointer or size-derived field becomes an obligation automatically.",
 		NotCovered: "equality of program output across configurations in general; the unchecked push headroom (growth is only tested at calls, at 70% occupancy); thread-pool and channel sizing.",
 	}
 	props["C13"] = &PropSpec{
@@ -57,8 +57,8 @@ func init() {
 		NotCovered: "the sorted-list invariant of the open-upvalue list under arbitrary capture orders (captureUpvalue), and which scope a given local is closed with in every loop form.",
 	}
 	props["C29"] = &PropSpec{
-		Rules:      []string{"optable/handled", "optable/width", "optable/siteinfo", "cover/offsets"},
-		Decides:    "that the three places which must agree on the instruction encoding do agree, for every opcode: the VM run loop, the disassembler and every emission site of the compiler (existence of a handler, and the number of operand bytes); that a call opcode is always paired with the call-site record type its handler reinterprets; and that the functions rewriting a finished instruction stream move every stored offset.",
+		Rules:      []string{"optable/handled", "optable/width", "optable/siteinfo", "cover/offsets", "layout/prepend-bytes"},
+		Decides:    "that a function prepending a prologue to a finished instruction stream shifts stored offsets and line-info counts by exactly the number of bytes it prepended on every path; that the three places which must agree on the instruction encoding do agree, for every opcode: the VM run loop, the disassembler and every emission site of the compiler (existence of a handler, and the number of operand bytes); that a call opcode is always paired with the call-site record type its handler reinterprets; and that the functions rewriting a finished instruction stream move every stored offset.",
 		NotCovered: "operand-stack depth consistency and the numeric values of jump offsets for particular programs (properties of emitted sequences, not of the emitter's shape).",
 	}
 }
@@ -81,8 +81,8 @@ func init() {
 
 func init() {
 	props["C17"] = &PropSpec{
-		Rules:      []string{"hash/counters", "hash/noempty", "hash/liveness"},
-		Decides:    "for the open-addressing tables behind HashMap, HashRecord and HashSet: (1) a population counter is incremented only when the filled slot was empty/tombstone or on a table under construction, occupiedSlots never shrinks, elements-- only next to a tombstone store, so length() equals the number of distinct keys; (2) no function stores the empty marker into an existing table, so deletion cannot cut a probe chain; (3) every liveness test of a HashSet slot recognises both dead markers.",
+		Rules:      []string{"hash/counters", "hash/noempty", "hash/liveness", "cover/reset"},
+		Decides:    "that Reset() of every iterator re-assigns each field its constructor derives from the collection (cached length, version stamp, snapshot), so a reset iterator does not walk a changed collection with stale bounds; for the open-addressing tables behind HashMap, HashRecord and HashSet: (1) a population counter is incremented only when the filled slot was empty/tombstone or on a table under construction, occupiedSlots never shrinks, elements-- only next to a tombstone store, so length() equals the number of distinct keys; (2) no function stores the empty marker into an existing table, so deletion cannot cut a probe chain; (3) every liveness test of a HashSet slot recognises both dead markers.",
 		NotCovered: "the probe sequence itself (hash -> start index, wrap-around, termination when the table is full of tombstones), agreement of equality with hashing, and the Go-map-backed native variants.",
 	}
 	props["C24"] = &PropSpec{
